@@ -147,6 +147,11 @@ pub open spec fn sp_base(t: Type) -> BaseType {
 pub open spec fn same_kind(a: Type, b: Type) -> bool { sp_base(a) == sp_base(b) }
 /// kinds that convert to and from nothing else: bit, bool, duration, stretch, angle, bit registers
 pub open spec fn closed_kind(t: Type) -> bool { t is Bit || t is Bool || t is Duration || t is Stretch || t is Angle || t is BitArray }
+/// C08: a width narrowing of a non-constant value: same kind, the target has a width and the value has none or a larger one
+pub open spec fn narrows(target: Type, value: Type) -> bool {
+    same_kind(target, value) && (target is Int || target is UInt || target is Float) && sp_width(target) is Some
+    && (sp_width(value) is None || sp_width(value)->Some_0 > sp_width(target)->Some_0) && !sp_is_const(value)
+}
 /// conversions that must always be diagnosed (from the statement of C08): the kind is lowered
 /// (float -> int, complex -> real), or one side is bit / bool / duration / stretch / angle / a bit
 /// register and the other side is of another kind
